@@ -1,8 +1,404 @@
 package main
 
-// Ground obligations over literal data of the repository (tables, constants, struct tags).
-// Filled in per property (C12, C14, C19, ...).
+// Ground obligations over literal data of the repository (tables, constants, struct tags):
+// generated from the AST / constant evaluator on every run and decided by exact evaluation
+// (back end "constfold"). DESIGN.md 2.5 kind `ground`.
+
+import (
+	"fmt"
+	"go/ast"
+	"go/constant"
+	"go/token"
+	"go/types"
+	"os"
+	"path/filepath"
+	"regexp"
+	"sort"
+	"strconv"
+	"strings"
+
+	"golang.org/x/tools/go/packages"
+)
+
+type groundCtx struct {
+	e     *Engine
+	prop  string
+	obls  []*Obligation
+	notes []string
+}
+
+func (g *groundCtx) add(fn, id, text string, ok bool, detail string, pos token.Pos) {
+	o := &Obligation{ID: id, Kind: "ground", Func: fn, Props: []string{g.prop}, Goal: "true", GoalText: text, Backend: "constfold", Decls: &[]string{}}
+	if pos.IsValid() {
+		o.Pos = g.e.Fset.Position(pos)
+	}
+	if ok {
+		o.Status = "discharged"
+	} else {
+		o.Status = "failed"
+		o.Output = detail
+	}
+	g.obls = append(g.obls, o)
+}
 
 func (e *Engine) GroundObligations(prop, tier string) ([]*Obligation, []string) {
-	return nil, nil
+	g := &groundCtx{e: e, prop: prop}
+	switch prop {
+	case "C12":
+		g.tables()
+		g.auditArch()
+		g.aliases()
+	case "C19":
+		g.constantsAllTargets(tier)
+	case "C14":
+		g.tags()
+		g.actionTable()
+	case "C01", "C02":
+		g.jumpTests()
+	}
+	return g.obls, g.notes
 }
+
+// ---- helpers over the AST ----
+
+func (e *Engine) pkgNamed(name string) *packages.Package { return e.PkgByName[name] }
+
+// mapLiteral returns the key/value expressions of a package-level map or slice literal variable.
+func findVarInit(p *packages.Package, name string) (ast.Expr, token.Pos) {
+	for _, f := range p.Syntax {
+		for _, d := range f.Decls {
+			gd, ok := d.(*ast.GenDecl)
+			if !ok || gd.Tok != token.VAR {
+				continue
+			}
+			for _, sp := range gd.Specs {
+				vs := sp.(*ast.ValueSpec)
+				for i, n := range vs.Names {
+					if n.Name == name && i < len(vs.Values) {
+						return vs.Values[i], n.Pos()
+					}
+				}
+			}
+		}
+	}
+	return nil, token.NoPos
+}
+
+type tableEntry struct {
+	Num  int64
+	Name string
+}
+
+func tableEntries(p *packages.Package, varName string) ([]tableEntry, token.Pos, error) {
+	init, pos := findVarInit(p, varName)
+	cl, ok := init.(*ast.CompositeLit)
+	if !ok {
+		return nil, pos, fmt.Errorf("%s is not a composite literal", varName)
+	}
+	var out []tableEntry
+	for _, el := range cl.Elts {
+		kv, ok := el.(*ast.KeyValueExpr)
+		if !ok {
+			return nil, pos, fmt.Errorf("%s: element without key", varName)
+		}
+		ktv, vtv := p.TypesInfo.Types[kv.Key], p.TypesInfo.Types[kv.Value]
+		if ktv.Value == nil || vtv.Value == nil {
+			return nil, pos, fmt.Errorf("%s: non-constant entry", varName)
+		}
+		n, _ := constant.Int64Val(ktv.Value)
+		out = append(out, tableEntry{n, constant.StringVal(vtv.Value)})
+	}
+	return out, pos, nil
+}
+
+// ---- C12: tables ----
+
+var nrDefine = regexp.MustCompile(`(?m)^#define\s+__NR_(\w+)\s+(?:\(__X32_SYSCALL_BIT \+ )?(\d+)\)?\s*$`)
+var goSysDefine = regexp.MustCompile(`(?m)^\s+SYS_(\w+)\s+=\s+(\d+)`)
+
+func (g *groundCtx) oracle(file string) (map[string]int64, bool) {
+	data, err := os.ReadFile(filepath.Join(g.e.VerifDir, "oracle", file))
+	if err != nil {
+		return nil, false
+	}
+	m := map[string]int64{}
+	if strings.HasSuffix(file, ".h") {
+		for _, x := range nrDefine.FindAllStringSubmatch(string(data), -1) {
+			n, _ := strconv.ParseInt(x[2], 10, 64)
+			m[x[1]] = n
+		}
+	} else {
+		for _, x := range goSysDefine.FindAllStringSubmatch(string(data), -1) {
+			n, _ := strconv.ParseInt(x[2], 10, 64)
+			m[strings.ToLower(x[1])] = n
+		}
+	}
+	return m, true
+}
+
+func (g *groundCtx) tables() {
+	p := g.e.pkgNamed("arch")
+	if p == nil {
+		g.add("arch.tables", "arch.tables#ground.load", "package arch is loaded", false, "package arch not found", token.NoPos)
+		return
+	}
+	tables := []struct {
+		v       string
+		oracles []string
+	}{
+		{"syscallsX86_64", []string{"unistd_64.h", "go_syscall_zsysnum_linux_amd64.go.txt", "xsys_zsysnum_linux_amd64.go.txt"}},
+		{"syscalls386", []string{"unistd_32.h", "go_syscall_zsysnum_linux_386.go.txt", "xsys_zsysnum_linux_386.go.txt"}},
+		{"syscallsX32", []string{"unistd_x32.h"}},
+		{"syscallsARM", []string{"go_syscall_zsysnum_linux_arm.go.txt", "xsys_zsysnum_linux_arm.go.txt"}},
+		{"syscallsAARCH64", []string{"unistd.h", "go_syscall_zsysnum_linux_arm64.go.txt", "xsys_zsysnum_linux_arm64.go.txt"}},
+	}
+	for _, t := range tables {
+		fn := "arch." + t.v
+		ents, pos, err := tableEntries(p, t.v)
+		if err != nil {
+			g.add(fn, fn+"#ground.literal", "table is a literal of constant entries", false, err.Error(), pos)
+			continue
+		}
+		g.add(fn, fn+"#ground.literal", fmt.Sprintf("table is a literal of %d constant entries", len(ents)), len(ents) > 0, "empty table", pos)
+		// precondition of invert at this call site: no name carries two numbers
+		byName := map[string][]int64{}
+		for _, en := range ents {
+			byName[en.Name] = append(byName[en.Name], en.Num)
+		}
+		var dups []string
+		for n, nums := range byName {
+			if len(nums) > 1 {
+				dups = append(dups, fmt.Sprintf("%s=%v", n, nums))
+			}
+		}
+		sort.Strings(dups)
+		g.add(fn, fn+"#pre@invert.injective", "no syscall name has two numbers (precondition of invert: lookups are deterministic and mutual inverses)", len(dups) == 0,
+			fmt.Sprintf("%d names with two numbers: %s", len(dups), strings.Join(dups, ", ")), pos)
+		// range
+		bad := ""
+		for _, en := range ents {
+			if en.Num < 0 || en.Num >= 1<<30 {
+				bad = fmt.Sprintf("%d:%s", en.Num, en.Name)
+			}
+			if en.Name == "" {
+				bad = fmt.Sprintf("%d has an empty name", en.Num)
+			}
+		}
+		g.add(fn, fn+"#ground.range", "every number is in [0, 2^30) and every name is non-empty (validInfo)", bad == "", bad, pos)
+		for _, of := range t.oracles {
+			om, ok := g.oracle(of)
+			if !ok {
+				g.add(fn, fn+"#ground.oracle."+of, "oracle file present", false, "missing /verif/oracle/"+of, pos)
+				continue
+			}
+			var mism []string
+			compared := 0
+			for _, en := range ents {
+				if on, ok := om[en.Name]; ok {
+					compared++
+					if on != en.Num {
+						// a name listed twice in the table may match the oracle through its other number
+						other := false
+						for _, n2 := range byName[en.Name] {
+							if n2 == on {
+								other = true
+							}
+						}
+						if !other || len(byName[en.Name]) > 1 {
+							mism = append(mism, fmt.Sprintf("%s: table %d, oracle %d", en.Name, en.Num, on))
+						}
+					}
+				}
+			}
+			sort.Strings(mism)
+			g.add(fn, fn+"#ground.oracle."+of, fmt.Sprintf("every (name, number) pair agrees with %s wherever it lists the name (%d pairs compared)", of, compared),
+				len(mism) == 0 && compared > 50, fmt.Sprintf("compared %d; disagreements: %s", compared, strings.Join(mism, "; ")), pos)
+		}
+	}
+	// the five Info literals use the tables they are named after
+	for _, pair := range [][3]string{{"ARM", "syscallsARM", "arm"}, {"AARCH64", "syscallsAARCH64", "aarch64"}, {"I386", "syscalls386", "i386"}, {"X32", "syscallsX32", "x32"}, {"X86_64", "syscallsX86_64", "x86_64"}} {
+		init, pos := findVarInit(p, pair[0])
+		ok, detail := false, "initializer not of the form &Info{...}"
+		if ue, isU := init.(*ast.UnaryExpr); isU {
+			if cl, isCL := ue.X.(*ast.CompositeLit); isCL {
+				num, names, nm := "", "", ""
+				for _, el := range cl.Elts {
+					kv := el.(*ast.KeyValueExpr)
+					switch kv.Key.(*ast.Ident).Name {
+					case "SyscallNumbers":
+						num = exprString(kv.Value)
+					case "SyscallNames":
+						names = exprString(kv.Value)
+						if ce, isCall := kv.Value.(*ast.CallExpr); isCall && len(ce.Args) == 1 {
+							names = exprString(ce.Fun) + "(" + exprString(ce.Args[0]) + ")"
+						}
+					case "Name":
+						if tv := p.TypesInfo.Types[kv.Value]; tv.Value != nil {
+							nm = constant.StringVal(tv.Value)
+						}
+					}
+				}
+				ok = num == pair[1] && names == "invert("+pair[1]+")" && nm == pair[2]
+				detail = fmt.Sprintf("SyscallNumbers=%s SyscallNames=%s Name=%q", num, names, nm)
+			}
+		}
+		g.add("arch."+pair[0], "arch."+pair[0]+"#ground.info", "Info literal: SyscallNumbers is its table, SyscallNames is invert of the same table, Name as documented", ok, detail, pos)
+	}
+}
+
+var auditDefine = regexp.MustCompile(`(?m)^#define\s+AUDIT_ARCH_(\w+)\s+\((.*)\)\s*$`)
+var emDefine = regexp.MustCompile(`(?m)^#define\s+(EM_\w+)\s+(0x[0-9a-fA-F]+|\d+)`)
+
+func (g *groundCtx) auditArch() {
+	p := g.e.pkgNamed("arch")
+	ah, err1 := os.ReadFile(filepath.Join(g.e.VerifDir, "oracle", "audit.h"))
+	eh, err2 := os.ReadFile(filepath.Join(g.e.VerifDir, "oracle", "elf-em.h"))
+	if err1 != nil || err2 != nil || p == nil {
+		g.add("arch.auditArch", "arch.auditArch#ground.oracle", "oracle headers present", false, "audit.h / elf-em.h missing", token.NoPos)
+		return
+	}
+	em := map[string]uint64{}
+	for _, m := range emDefine.FindAllStringSubmatch(string(eh), -1) {
+		v, _ := strconv.ParseUint(m[2], 0, 64)
+		em[m[1]] = v
+	}
+	flags := map[string]uint64{"__AUDIT_ARCH_64BIT": 0x80000000, "__AUDIT_ARCH_LE": 0x40000000, "__AUDIT_ARCH_CONVENTION_MIPS64_N32": 0x20000000}
+	oracle := map[string]uint64{}
+	for _, m := range auditDefine.FindAllStringSubmatch(string(ah), -1) {
+		var v uint64
+		ok := true
+		for _, part := range strings.Split(m[2], "|") {
+			part = strings.TrimSpace(part)
+			if x, isEM := em[part]; isEM {
+				v |= x
+			} else if x, isF := flags[part]; isF {
+				v |= x
+			} else {
+				ok = false
+			}
+		}
+		if ok {
+			oracle[m[1]] = v
+		}
+	}
+	// library constant name -> kernel name
+	names := map[string]string{"AARCH64": "AARCH64", "ARM": "ARM", "ARMEB": "ARMEB", "I386": "I386", "X86_64": "X86_64", "PPC": "PPC", "PPC64": "PPC64", "PPC64LE": "PPC64LE",
+		"S390": "S390", "S390X": "S390X", "MIPS": "MIPS", "MIPSEL": "MIPSEL", "MIPS64": "MIPS64", "MIPS64N32": "MIPS64N32", "MIPSEL64": "MIPSEL64", "MIPSEL64N32": "MIPSEL64N32",
+		"SPARC": "SPARC", "SPARC64": "SPARC64", "IA64": "IA64", "PARISC": "PARISC", "PARISC64": "PARISC64", "SH": "SH", "SH64": "SH64", "SHEL": "SHEL", "SHEL64": "SHEL64",
+		"CRIS": "CRIS", "FRV": "FRV", "M32R": "M32R", "M68K": "M68K"}
+	sc := p.Types.Scope()
+	checked := 0
+	for _, n := range sc.Names() {
+		if !strings.HasPrefix(n, "auditArch") || n == "auditArchNames" {
+			continue
+		}
+		c, ok := sc.Lookup(n).(*types.Const)
+		if !ok {
+			continue
+		}
+		kn := names[strings.TrimPrefix(n, "auditArch")]
+		ov, have := oracle[kn]
+		if !have {
+			continue
+		}
+		v, _ := constant.Uint64Val(c.Val())
+		checked++
+		g.add("arch."+n, "arch."+n+"#ground.audit", fmt.Sprintf("%s == AUDIT_ARCH_%s of linux/audit.h (%#x)", n, kn, ov), v == ov, fmt.Sprintf("library %#x, kernel %#x", v, ov), c.Pos())
+	}
+	g.add("arch.auditArch", "arch.auditArch#ground.count", "audit architecture constants were compared with the kernel header", checked >= 16, fmt.Sprintf("only %d compared", checked), token.NoPos)
+	// the five Info literals carry the constant of their architecture
+	for _, pair := range [][2]string{{"ARM", "auditArchARM"}, {"AARCH64", "auditArchAARCH64"}, {"I386", "auditArchI386"}, {"X32", "auditArchX86_64"}, {"X86_64", "auditArchX86_64"}} {
+		init, pos := findVarInit(p, pair[0])
+		id := ""
+		if ue, isU := init.(*ast.UnaryExpr); isU {
+			if cl, isCL := ue.X.(*ast.CompositeLit); isCL {
+				for _, el := range cl.Elts {
+					kv := el.(*ast.KeyValueExpr)
+					if kv.Key.(*ast.Ident).Name == "ID" {
+						id = exprString(kv.Value)
+					}
+				}
+			}
+		}
+		g.add("arch."+pair[0], "arch."+pair[0]+"#ground.id", "Info.ID is "+pair[1], id == pair[1], "ID is "+id, pos)
+	}
+	// x32 mask
+	if c, ok := sc.Lookup("x32SyscallMask").(*types.Const); ok {
+		v, _ := constant.Uint64Val(c.Val())
+		g.add("arch.x32SyscallMask", "arch.x32SyscallMask#ground.value", "x32SyscallMask == __X32_SYSCALL_BIT (0x40000000)", v == 0x40000000, fmt.Sprintf("%#x", v), c.Pos())
+	}
+}
+
+func (g *groundCtx) aliases() {
+	p := g.e.pkgNamed("arch")
+	if p == nil {
+		return
+	}
+	init, pos := findVarInit(p, "arches")
+	cl, ok := init.(*ast.CompositeLit)
+	if !ok {
+		g.add("arch.arches", "arch.arches#ground.literal", "arches is a map literal", false, "not a literal", pos)
+		return
+	}
+	m := map[string]string{}
+	for _, el := range cl.Elts {
+		kv := el.(*ast.KeyValueExpr)
+		if tv := p.TypesInfo.Types[kv.Key]; tv.Value != nil {
+			m[constant.StringVal(tv.Value)] = exprString(kv.Value)
+		}
+	}
+	want := map[string]string{"amd64": "X86_64", "x86_64": "X86_64", "386": "I386", "i386": "I386", "arm64": "AARCH64", "aarch64": "AARCH64", "arm": "ARM", "x32": "X32"}
+	for _, k := range sortedKeys(want) {
+		g.add("arch.arches", "arch.arches#ground.alias."+k, fmt.Sprintf("arches[%q] is %s", k, want[k]), m[k] == want[k], fmt.Sprintf("arches[%q] is %s", k, m[k]), pos)
+	}
+	lower := true
+	for k := range m {
+		if strings.ToLower(k) != k {
+			lower = false
+		}
+	}
+	g.add("arch.arches", "arch.arches#ground.lowercase", "every key of arches is lower case (GetInfo folds the requested name with ToLower)", lower, "upper-case key present", pos)
+	// every other entry refers to an Info without tables, hence GetInfo reports it unsupported (contract of GetInfo)
+	for _, k := range sortedKeys(m) {
+		if _, isT := want[k]; isT {
+			continue
+		}
+		vinit, vpos := findVarInit(p, m[k])
+		tableless := false
+		if ue, isU := vinit.(*ast.UnaryExpr); isU {
+			if icl, isCL := ue.X.(*ast.CompositeLit); isCL {
+				tableless = true
+				for _, el := range icl.Elts {
+					if kv, ok := el.(*ast.KeyValueExpr); ok {
+						if id, ok := kv.Key.(*ast.Ident); ok && (id.Name == "SyscallNames" || id.Name == "SyscallNumbers") {
+							tableless = false
+						}
+					}
+				}
+			}
+		}
+		g.add("arch.arches", "arch.arches#ground.unsupported."+k, fmt.Sprintf("arches[%q] (%s) has no syscall tables, so GetInfo returns the unsupported-architecture error (by its contract)", k, m[k]), tableless, "has tables", vpos)
+	}
+}
+
+// ---- C01/C02: the x/net JumpTest numbering the spec library assumes ----
+
+func (g *groundCtx) jumpTests() {
+	bp := g.e.findPkg("golang.org/x/net/bpf")
+	if bp == nil {
+		return
+	}
+	want := []string{"JumpEqual", "JumpNotEqual", "JumpGreaterThan", "JumpLessThan", "JumpGreaterOrEqual", "JumpLessOrEqual", "JumpBitsSet", "JumpBitsNotSet"}
+	for i, n := range want {
+		c, ok := bp.Scope().Lookup(n).(*types.Const)
+		v := int64(-1)
+		if ok {
+			v, _ = constant.Int64Val(c.Val())
+		}
+		g.add("bpf.JumpTest", "bpf."+n+"#ground.value", fmt.Sprintf("bpf.%s == %d (numbering assumed by jtest in spec/10_cbpf.smt2)", n, i), v == int64(i), fmt.Sprintf("value %d", v), token.NoPos)
+	}
+}
+
+func (g *groundCtx) constantsAllTargets(tier string) {}
+func (g *groundCtx) tags()                           {}
+func (g *groundCtx) actionTable()                    {}
